@@ -3,13 +3,14 @@ from pyvc.spec import V, And, Or, Not, Implies, If, Abs, Min, Max, Sum, unwrap
 
 PARAMS = "src/optimizer/parameters.py"
 import os
+from pyvc.values import Arr
 
 THOROUGH = os.environ.get("VERIF_TIER") == "thorough"
 HORIZONS = (48, 60, 72, 84, 96, 108, 120)
 
 
 def crop_constants(S, N, better_rotation, greenhouses, outdoor=True, gh_delay=2, harvest=8, rot_delay=2,
-                   expand=False, country="USA", tag=""):
+                   expand=False, country="USA", tag="", years_to_expand=3, seasonality_as_ndarray=False):
     """constants_inputs for OutdoorCrops / Greenhouses: an open dictionary whose unlisted keys are fresh
     reals; the listed ones carry the preconditions of valid_country_row and of the scenario setters."""
     season = [S.real(f"season{m}{tag}") for m in range(12)]
@@ -37,12 +38,12 @@ def crop_constants(S, N, better_rotation, greenhouses, outdoor=True, gh_delay=2,
         "ADD_OUTDOOR_GROWING": outdoor, "ADD_GREENHOUSES": greenhouses,
         "OG_USE_BETTER_ROTATION": better_rotation,
         "WASTE_DISTRIBUTION": {"CROPS": unwrap(waste_d)}, "WASTE_RETAIL": waste_r,
-        "SEASONALITY": [unwrap(s) for s in season],
+        "SEASONALITY": (Arr(12, elems=[unwrap(s) for s in season], dtype="float") if seasonality_as_ndarray else [unwrap(s) for s in season]),
         "ROTATION_IMPROVEMENTS": {"POWER_LAW_IMPROVEMENT": unwrap(expo), "FAT_RATIO": unwrap(S.real("FAT_RATIO" + tag)),
                                   "PROTEIN_RATIO": unwrap(S.real("PROTEIN_RATIO" + tag))},
         "INITIAL_HARVEST_DURATION_IN_MONTHS": harvest,
         "DELAY": {"ROTATION_CHANGE_IN_MONTHS": rot_delay, "GREENHOUSE_MONTHS": gh_delay},
-        "RATIO_INCREASED_CROP_AREA": ratio_area, "NUMBER_YEARS_TAKES_TO_REACH_INCREASED_AREA": 3,
+        "RATIO_INCREASED_CROP_AREA": ratio_area, "NUMBER_YEARS_TAKES_TO_REACH_INCREASED_AREA": years_to_expand,
         "INITIAL_GLOBAL_CROP_AREA": area, "INITIAL_CROP_AREA_FRACTION": frac,
         "GREENHOUSE_AREA_MULTIPLIER": mult, "GREENHOUSE_GAIN_PCT": S.real("GREENHOUSE_GAIN_PCT" + tag),
     }
